@@ -406,3 +406,35 @@ func Differ(a, b *Lang) (Result, error) {
 	q := &Query{Langs: []*Lang{a, b}, Accept: func(m []bool) bool { return m[0] != m[1] }}
 	return q.Run()
 }
+
+// AlphabetStar over-approximates the result of an unknown string
+// transformation of a member of l that can only delete characters, reorder
+// nothing and insert the runes of extra: (alphabet(l) ∪ extra)*.
+func AlphabetStar(name string, l *Lang, extra string) (*Lang, error) {
+	var ranges []rune
+	any := false
+	for i := range l.Prog.Inst {
+		in := &l.Prog.Inst[i]
+		switch in.Op {
+		case syntax.InstRuneAny, syntax.InstRuneAnyNotNL:
+			any = true
+		case syntax.InstRune, syntax.InstRune1:
+			if len(in.Rune) == 1 {
+				ranges = append(ranges, in.Rune[0], in.Rune[0])
+			}
+			for j := 0; j+1 < len(in.Rune); j += 2 {
+				ranges = append(ranges, in.Rune[j], in.Rune[j+1])
+			}
+		}
+	}
+	for _, r := range extra {
+		ranges = append(ranges, r, r)
+	}
+	var re *syntax.Regexp
+	if any {
+		re = &syntax.Regexp{Op: syntax.OpStar, Sub: []*syntax.Regexp{{Op: syntax.OpAnyChar}}}
+	} else {
+		re = &syntax.Regexp{Op: syntax.OpStar, Sub: []*syntax.Regexp{{Op: syntax.OpCharClass, Rune: ranges}}}
+	}
+	return Full(name, re)
+}
